@@ -22,6 +22,7 @@ def run():
         t5 = run_tlc("Eval", cfg5, work, timeout=3000)
         res.add_tlc("Eval: machine = Den, all programs <= 5 leaves (spec level only)", t5)
     E.trace_validation(res, work, n_random=4000 if thorough else 600)
+    E.unit_test_suite_traces(res, work, "rc")
     res.coverage["exhaustive"] = True
     res.coverage["rule"] = (f"every postfix program of Eval.tla with <= {n} leaves (2 RC keys, hint keys, 2 FC keys, juxtaposition with a "
                             "single FC key) under every assignment in {F,U,K}^2 is one case; non-trivial = at least one composition; "
